@@ -261,7 +261,8 @@ func buildLayoutWorlds() {
 		return wm.Workload{Kind: "Pod", NS: ns, Name: name, Labels: l, Ports: []wm.CPort{{Name: "http", Num: 80}}}
 	}
 	np := wm.NP{NS: "ns1", Name: "p", PodSel: *wm.ML("app", "a"), Types: []string{"Ingress"}, Ingress: []wm.NPRule{{Peers: []wm.NPPeer{{Pod: wm.ML("app", "b")}, {CIDR: "10.0.0.0/8"}}, Ports: []wm.NPPort{{HasPort: true, Name: "http"}}}}}
-	np2 := wm.NP{NS: "ns1", Name: "q", PodSel: wm.Sel{}, Types: []string{"Egress"}, Egress: []wm.NPRule{{Peers: []wm.NPPeer{{NSSel: all, Pod: wm.ML("role", "mon")}, {Pod: wm.ML("app", "a")}}, Ports: []wm.NPPort{{HasPort: true, Num: 80}}}}}
+	// {ns team=a, pod app=b} is satisfied by the real pb in ns1 (team=a): its representative is removed only if the namespace labels are known
+	np2 := wm.NP{NS: "ns1", Name: "q", PodSel: wm.Sel{}, Types: []string{"Egress"}, Egress: []wm.NPRule{{Peers: []wm.NPPeer{{NSSel: all, Pod: wm.ML("role", "mon")}, {Pod: wm.ML("app", "a")}, {NSSel: wm.ML("team", "a"), Pod: wm.ML("app", "b")}}, Ports: []wm.NPPort{{HasPort: true, Num: 80}}}}}
 	p80 := []wm.APort{{Kind: "num", Proto: "TCP", Num: 80}}
 	allow := wm.ANP{Name: "zz-allow", Prio: 3, Subject: wm.APeer{Namespaces: all}, Ingress: []wm.ARule{{Action: "Allow", Peers: []wm.APeer{{Namespaces: all}}, Ports: &p80}}}
 	deny := wm.ANP{Name: "aa-deny", Prio: 9, Subject: wm.APeer{Namespaces: all}, Ingress: []wm.ARule{{Action: "Deny", Peers: []wm.APeer{{Namespaces: all}}}}}
